@@ -45,6 +45,7 @@ type Alerts struct {
 	limits        map[string]*limit.Bucket[model.Fingerprint]
 	perAlertLimit int
 	destroyed     bool
+	acceptOlder   bool
 }
 
 // NewAlerts returns a new Alerts struct.
@@ -65,6 +66,20 @@ func (a *Alerts) WithPerAlertLimit(lim int) *Alerts {
 
 	a.limits = make(map[string]*limit.Bucket[model.Fingerprint])
 	a.perAlertLimit = lim
+
+	return a
+}
+
+// AcceptOlderVersions makes Set store whatever version it is given, also one
+// whose UpdatedAt is older than the stored one's. It is meant for a cache that
+// is fed, in order, by a store which has already decided which version counts
+// (the inhibitor's copy of the provider's alerts): refusing there what the
+// provider accepted would make the two disagree.
+func (a *Alerts) AcceptOlderVersions() *Alerts {
+	a.Lock()
+	defer a.Unlock()
+
+	a.acceptOlder = true
 
 	return a
 }
@@ -160,7 +175,7 @@ func (a *Alerts) Set(alert *types.Alert) error {
 
 	// Updates of one alert can be delivered out of order (for example by
 	// concurrent ingestion workers): never replace a version by an older one.
-	if old, ok := a.alerts[fp]; ok && alert.UpdatedAt.Before(old.UpdatedAt) {
+	if old, ok := a.alerts[fp]; ok && !a.acceptOlder && alert.UpdatedAt.Before(old.UpdatedAt) {
 		return nil
 	}
 
